@@ -289,7 +289,7 @@ def run_history(ctx, wd, idx, sc, reads, base, start, steps):
         if st.get("reinput"):
             rc, so, se = util.run_cli(ctx, ["phase", "-o", f"re{si + 1}.vcf", "base.vcf", nxt], cwd=d,
                                       env_extra={"WHATSHAP_VERIF_TRACE": os.path.join(d, f"retrace{si + 1}.jsonl")})
-            rec["re"] = (f"re{si + 1}.vcf", rc, se[-400:])
+            rec["re"] = (f"re{si + 1}.vcf", rc, se[-2500:])
         out.append(rec)
         cur = nxt
     return out
@@ -384,13 +384,13 @@ def build_cases(ctx, results, inputs):
                 tag = st["kind"]
                 if rc != 0:
                     ctx.tally("reinput.tool_failed")
-                    known = "NoneType" in se and "split" in se
+                    known = "object has no attribute 'split'" in se
                     if known:
                         ctx.tally("reinput.hp_none_crash")
                     if known and ctx.dist.get("reinput.hp_none_crash", 0) <= 1:
                         ctx.violation("vcfreader:hp-none-crash",
                                       "`whatshap phase base.vcf phased.vcf` dies reading the phased VCF written by "
-                                      f"phase --tag {tag} (HP value read back as (None,)): " + desc + " :: " + se[-200:], replay)
+                                      f"phase --tag {tag} (HP value read back as (None,)): " + desc + " :: " + se[-160:], replay)
                     elif "MixedPhasingError" in se:
                         pass        # reported through the decode checks of the step (stale phase)
                     else:
@@ -503,7 +503,7 @@ def run_histories(ctx, n):
 
 
 def run(ctx):
-    run_histories(ctx, ctx.n(150, 3000))
+    run_histories(ctx, ctx.n(100, 2500))
 
 
 def replay(ctx, data):
